@@ -19,7 +19,8 @@ EXPLANATION = (
     "`val == edge` after normalisation (the half-open [low, high) convention as a belief all sites share); "
     "(d) check_edges_increasing runs in histogram.__init__ before the edges are stored; (e) get_bin_on_value pairs "
     "arg[i] with edges[i] in order and rejects a length mismatch first; the coordinate and the edges compared in "
-    "get_bin_on_value_1d are the parameters as given, never rebound to a converted copy.  Does not decide that the interpolation "
+    "get_bin_on_value_1d are the parameters as given, never rebound to a converted copy; (f) every way round the `while True` search loop moves a bound strictly "
+    "(by a constant step, or `bound = guess` only after `guess == bound` was refuted), which is what makes fill() return.  Does not decide that the interpolation "
     "search returns the right index (loop invariants over floats).")
 RULES = {
     "C06-a": "ONCE: exactly one `+= weight` per fill on every path, on a cell reached from self.bins in this call; no other state",
